@@ -77,3 +77,52 @@ void harness_guard(void)
 	CHECK(verif_live_blocks == baseline, "C07.request_leaves_nothing_allocated_after_peers_are_gone");
 	WITNESS_END();
 }
+
+/* ================================================================== an element added with a value is a state, whatever the JSON type of the value
+ * (-DVTYPE: 0 null, 1 false, 2 empty string, 3 empty array, 4 empty object, 5 zero); added without value it is a method */
+#ifndef VTYPE
+#define VTYPE 0
+#endif
+void harness_value_types(void)
+{
+	__CPROVER_assume(element_hashtable_create() == 0);
+	mkpeer(&O, true); mkpeer(&A, true);
+	int v = (int)nd_range(0, 999);
+	scn_build_begin();
+	cJSON *ap = cJSON_CreateObject();
+	cJSON_AddItemToObject(ap, "path", cJSON_CreateString("v"));
+#if VTYPE == 0
+	cJSON_AddItemToObject(ap, "value", cJSON_CreateNull());
+#elif VTYPE == 1
+	cJSON_AddItemToObject(ap, "value", cJSON_CreateFalse());
+#elif VTYPE == 2
+	cJSON_AddItemToObject(ap, "value", cJSON_CreateString(""));
+#elif VTYPE == 3
+	cJSON_AddItemToObject(ap, "value", cJSON_CreateArray());
+#elif VTYPE == 4
+	cJSON_AddItemToObject(ap, "value", cJSON_CreateObject());
+#else
+	cJSON_AddItemToObject(ap, "value", mknumber(0));
+#endif
+	cJSON *add = mkreq("add", 1, ap);
+	cJSON *get = mkreq("get", 2, cJSON_CreateObject());
+	cJSON *call = mkreq("call", 3, args_params("v", v));
+	cJSON *chg = mkreq("change", 4, path_params("v", v));
+	scn_build_end();
+	reset_log();
+	CHECK(dispatch(&O, add) == 0 && count_responses(&O) == 1 && last_of(&O, K_RESPONSE)->has_result, "C04.well_formed_add_of_a_free_path_succeeds");
+	struct element *e = element_table_get("v");
+	CHECK(e && e->peer == &O && e->value != 0, "C04.element_added_with_a_value_is_a_state");
+	reset_log();
+	CHECK(dispatch(&A, get) == 0, "C04.request_keeps_connection");
+	{ struct sent *g = last_of(&A, K_RESPONSE); CHECK(g && g->has_result && g->result_items == 1, "C04.get_lists_the_state"); }
+	reset_log();
+	CHECK(dispatch(&A, call) == 0, "C04.request_keeps_connection");
+	{ struct sent *c = last_of(&A, K_RESPONSE); CHECK(count_responses(&A) == 1 && c && c->is_error && count_kind(&O, K_ROUTED) == 0 && timers_alive() == 0, "C04.call_is_refused_for_states"); }
+	reset_log();
+	CHECK(dispatch(&O, chg) == 0, "C04.request_keeps_connection");
+	{ struct sent *c = last_of(&O, K_RESPONSE); CHECK(c && c->has_result && !c->is_error, "C04.change_by_the_owner_is_accepted_for_states"); }
+	e = element_table_get("v");
+	CHECK(e && e->value && e->value->valueint == v, "C04.accepted_change_stores_the_value");
+	WITNESS_END();
+}
